@@ -18,6 +18,9 @@ sh('git -C %s checkout -- .' % WT)
 for k in ks:
     src = os.environ.get('SRC', '/tmp/mut/out') + '/%s' % pid
     patch, demo, metaf = '%s/mutant%s.diff' % (src, k), '%s/demo%s.py' % (src, k), '%s/meta%s.json' % (src, k)
+    if not os.path.exists(patch):   # the sub-agent's scratch files are gone: use the copies filed under /verif/seeded
+        filed = '/verif/seeded/%s-%s' % (pid, k)
+        patch, demo, metaf = filed + '/patch.diff', filed + '/demo.py', filed + '/meta.json'
     if not os.path.exists(patch):
         print(pid, k, 'no patch'); continue
     meta = json.load(open(metaf)) if os.path.exists(metaf) else {}
@@ -47,7 +50,7 @@ for k in ks:
     if ok:
         out = '/verif/seeded/%s-%s' % (pid, k)
         os.makedirs(out, exist_ok=True)
-        shutil.copy(patch, out + '/patch.diff'); shutil.copy(demo, out + '/demo.py')
+        [shutil.copy(a, b) for a, b in ((patch, out + '/patch.diff'), (demo, out + '/demo.py')) if os.path.abspath(a) != os.path.abspath(b)]
         meta.update(property=pid, confirmed=dict(repo_head=head, demo_on_clean_tree=d0, demo_with_change=d1, test_suite_with_change=t,
                     ran='tools/seed_eval.py %s %s (scratch worktree /tmp/mutrun, checks with KAFE2_SRC)' % (pid, k)), checks_quick=checks,
                     detected={p: bool(c['exit'] == 1 and c['violation_lines'] > 0) for p, c in checks.items()})
